@@ -1081,6 +1081,20 @@ def ghost_templates_check(ctx, cases):
             continue
         accepted += 1
         _, bits, labels_s, links_s, ghost_s = og.split(' ')
+        # input distribution of the accepted cases, per column of the value lists
+        vt = c.get('val_toks') or []
+        for k in range(len(vt[0]) if vt else 0):
+            col = [s_[k] for s_ in vt if k < len(s_)]
+            if 'n' in col and any(x != 'n' for x in col):
+                ctx.dist['ghost-accepted column: partly missing'] += 1
+            elif all(x == 'n' for x in col):
+                ctx.dist['ghost-accepted column: missing throughout'] += 1
+            elif len(set(col)) == 1:
+                ctx.dist['ghost-accepted column: all equal'] += 1
+            else:
+                ctx.dist['ghost-accepted column: differing'] += 1
+            if any(x.startswith('y') for x in col):
+                ctx.dist['ghost-accepted column: character'] += 1
         # the implementation's bits were compared with EncodeC.encode_compressed above (compare_encode);
         # the ghost writes the same bits and records the same labels and links (theorem encode_compressed_ghost_is_encode)
         me = c.get('model_enc', '').split(' ')
